@@ -432,7 +432,9 @@ def pinned_engine(prog, sess_factory, c):
             eng.st.ghost["fsub"] = lambda a, b: fl_sub_int(a, b)
             d, w = Fl(z3.Real("d")), Fl(z3.Real("w"))
             eng.assume(z3.And(d.t > 0, w.t > 0))
-            eps = SP.eng_const(eng, prog.modules["auditok.core"], "_EPSILON")
+            import ast as _ast
+            from .engine import Frame as _Frame
+            eps = eng.eval(_ast.Constant(value=1e-9), _Frame(None, {}, prog.modules["auditok.core"]))     # the statement's tolerance
             rfn = LibCallable("math." + c["mode"], eng.lib["math." + c["mode"]])
             res = eng.run_function(prog.func("auditok.core._duration_to_nb_windows"), [d, w, rfn, eps], {})
             ev = mval(eng, None)
